@@ -122,6 +122,26 @@ let main_conc_enum () =
    with End_of_file -> ());
   close_in hf
 
+(* usage: driver saveload <uuid:0|1> <histories> <impl-transcripts>
+   output per history: model transcript line, then "V <eq>" *)
+let run_saveload () =
+  let uuid = Sys.argv.(2) <> "0" in
+  let hf = open_in Sys.argv.(3) in
+  let tf = open_in Sys.argv.(4) in
+  (try
+     while true do
+       let h = List.map z_of_int (ints_of_line (input_line hf)) in
+       let t = transcript_of_line (input_line tf) in
+       let m = saveload_transcript uuid h in
+       let eq = zlists_eqb m t in
+       print_string (line_of_transcript m);
+       print_newline ();
+       print_string ("V " ^ (if eq then "1" else "0"));
+       print_newline ()
+     done
+   with End_of_file -> ());
+  close_in hf; close_in tf
+
 let () =
   match Sys.argv.(1) with
   | "world" -> run_world ()
@@ -129,4 +149,5 @@ let () =
   | "derive" -> run_derive ()
   | "conc" -> main_conc ()
   | "conc-enum" -> main_conc_enum ()
+  | "saveload" -> run_saveload ()
   | d -> failwith ("unknown domain " ^ d)
